@@ -1,7 +1,7 @@
 (* Properties/C12.v — term-id groups behave as sorted sets (C12).
    Only statements; every proof is `exact <lemma>`. *)
 From Coq Require Import Sorted.
-From HpoV Require Import Model.Base Model.Group Spec.Sets Proofs.GroupP Proofs.SetsP Proofs.C12P Run.C12.
+From HpoV Require Import Model.Base Model.Group Model.Onto Model.Query Spec.Sets Proofs.GroupP Proofs.SetsP Proofs.C12P Proofs.C12tP Run.C12.
 
 (* a group is well-formed when it is strictly ascending (hence duplicate-free) *)
 Definition wf (g : group) : Prop := StronglySorted N.lt g.
@@ -53,6 +53,28 @@ Proof. exact C12_model_lemma. Qed.
 Theorem C12_spec_reference : forall l, wf (set_of l) /\ forall z, In z (set_of l) <-> In z l.
 Proof. exact (fun l => conj (set_of_sorted l) (set_of_In l)). Qed.
 
+(* the ancestor queries of two terms (hpoterm.rs): intersection / union of the two ancestor groups,
+   the terms themselves added on both sides in all_common_ancestor_ids only *)
+Theorem C12_common_ancestors : forall a b, wf (t_allp a) -> wf (t_allp b) ->
+  wf (common_ancestor_ids a b) /\ forall z, In z (common_ancestor_ids a b) <-> In z (t_allp a) /\ In z (t_allp b).
+Proof. exact common_ancestor_ids_spec. Qed.
+
+Theorem C12_all_common_ancestors : forall a b, wf (t_allp a) -> wf (t_allp b) ->
+  wf (all_common_ancestor_ids a b) /\ forall z, In z (all_common_ancestor_ids a b) <->
+            (z = t_id a \/ In z (t_allp a)) /\ (z = t_id b \/ In z (t_allp b)).
+Proof. exact all_common_ancestor_ids_spec. Qed.
+
+Theorem C12_union_ancestors : forall a b, wf (t_allp a) -> wf (t_allp b) ->
+  wf (union_ancestor_ids a b) /\ all_union_ancestor_ids a b = union_ancestor_ids a b /\
+  forall z, In z (union_ancestor_ids a b) <-> In z (t_allp a) \/ In z (t_allp b).
+Proof. exact union_ancestor_ids_spec. Qed.
+
+Theorem C12_ancestor_queries_symmetric : forall a b, wf (t_allp a) -> wf (t_allp b) ->
+  common_ancestor_ids a b = common_ancestor_ids b a /\
+  all_common_ancestor_ids a b = all_common_ancestor_ids b a /\
+  union_ancestor_ids a b = union_ancestor_ids b a.
+Proof. exact ancestor_queries_symmetric. Qed.
+
 Print Assumptions C12_insert.
 Print Assumptions C12_contains.
 Print Assumptions C12_iter_strictly_ascending.
@@ -65,3 +87,7 @@ Print Assumptions C12_union_comm.
 Print Assumptions C12_inter_comm.
 Print Assumptions C12_model.
 Print Assumptions C12_spec_reference.
+Print Assumptions C12_common_ancestors.
+Print Assumptions C12_all_common_ancestors.
+Print Assumptions C12_union_ancestors.
+Print Assumptions C12_ancestor_queries_symmetric.
